@@ -257,6 +257,14 @@ def splice(take, mode, mutant=None):
         if "__verif_exit !();" in text:
             text = text.replace("__verif_exit !();", get("exit"), 1)
         text = re.sub(r"__verif_stmt_(\d+) !\(\);", lambda m: get("after_stmt " + m.group(1)), text)
+        text = re.sub(r"__verif_arm_(\d+) !\(\);", lambda m: get("arm " + m.group(1)), text)
+        # after_call anchors; `__tail` in the section text names the value of a block tail that was bound to a temporary
+        def after_call(m):
+            tail, name, k = m.group(2), m.group(3), m.group(4)
+            body = get(f"after_call {name} {k}")
+            return body.replace("__tail", tail) if tail else body
+        text = re.sub(r"(__verif_tailname_(__t\d+) !\(\);\s*)?__verif_after_call_(\w+?)_(\d+) !\(\);", after_call, text)
+        text = re.sub(r"__verif_tailname___t\d+ !\(\);", "", text)
         # nested fns
         for name in [x for x in take.meta.get("nested", "").split(",") if x]:
             ph = f"__verif_nested_{name} !();"
